@@ -6,7 +6,7 @@
 use super::*;
 use crate::utils::__vp_utils::spec_l_step;
 use bcref::kuznyechik as kz;
-use crate::__vp_lemmas::ruf;
+use crate::__vp_lemmas::{ruf, tuf};
 use crate::utils::__vp_utils::CREF;
 use cipher::Array;
 
@@ -92,35 +92,49 @@ pub fn spec_f(k1: &mut Block, k2: &mut Block, n: usize) {
     k2.0 = a0;
 }
 
-// @ob name=c_f cfg=compact props=C07,C20 fn=kuznyechik::compact_soft::backends::f uses=c_lsx,c_get_c timeout=900
+// f against eight applications of the standard's F: lsx and get_c are replaced by their contracts, and the reference LSX
+// that then occurs on both sides is the transcript oracle `tuf` (real side recorded, reference side replayed); C_i are
+// read from the checked table CREF on both sides.
+// @ob name=c_f cfg=compact props=C07,C20 fn=kuznyechik::compact_soft::backends::f uses=c_lsx,c_get_c,c_cref_lo,c_cref_hi timeout=600
 #[kani::proof]
 #[kani::stub(lsx, spec_lsx)]
 #[kani::stub(get_c, spec_get_c)]
-#[kani::stub(bcref::kuznyechik::lsx, ruf::lsx)]
-#[kani::stub(bcref::kuznyechik::c, ruf::c)]
-#[kani::unwind(151)]
+#[kani::stub(bcref::kuznyechik::lsx, tuf::lsx)]
+#[kani::stub(bcref::kuznyechik::c, crate::utils::__vp_utils::cref_lookup)]
+#[kani::unwind(17)]
 fn c_f() {
+    let ks: [[[u8; 16]; 2]; 4] = kani::any();
+    let mut out = [[[0u8; 16]; 2]; 4];
     let mut n = 0;
     while n < 4 {
-        let (mut k1, mut k2) = (any_block(), any_block());
-        let (mut s1, mut s2) = (k1, k2);
+        let (mut k1, mut k2) = (Array(ks[n][0]), Array(ks[n][1]));
         f(&mut k1, &mut k2, n);
-        spec_f(&mut s1, &mut s2, n);
-        assert!(kz::eq(&k1.0, &s1.0) && kz::eq(&k2.0, &s2.0));
+        out[n] = [k1.0, k2.0];
         n += 1;
     }
+    tuf::start_replay();
+    let mut n = 0;
+    while n < 4 {
+        let (mut s1, mut s2) = (Array(ks[n][0]), Array(ks[n][1]));
+        spec_f(&mut s1, &mut s2, n);
+        assert!(kz::eq(&out[n][0], &s1.0) && kz::eq(&out[n][1], &s2.0));
+        n += 1;
+    }
+    assert!(tuf::all_replayed());
 }
 
-// @ob name=c_expand cfg=compact props=C07,C20 fn=kuznyechik::compact_soft::backends::expand uses=c_f timeout=900
+// @ob name=c_expand cfg=compact props=C07,C20 fn=kuznyechik::compact_soft::backends::expand uses=c_f,c_cref_lo,c_cref_hi timeout=600
 #[kani::proof]
 #[kani::stub(f, spec_f)]
-#[kani::stub(bcref::kuznyechik::lsx, ruf::lsx)]
-#[kani::stub(bcref::kuznyechik::c, ruf::c)]
-#[kani::unwind(151)]
+#[kani::stub(bcref::kuznyechik::lsx, tuf::lsx)]
+#[kani::stub(bcref::kuznyechik::c, crate::utils::__vp_utils::cref_lookup)]
+#[kani::unwind(33)]
 fn c_expand() {
     let key: [u8; 32] = kani::any();
     let rk = expand(&Array(key));
+    tuf::start_replay();
     let spec = kz::key_schedule(&key);
+    assert!(tuf::all_replayed());
     let mut i = 0;
     while i < 10 {
         assert!(kz::eq(&rk[i].0, &spec[i]));
